@@ -568,6 +568,10 @@ class Node(object):
         individual_to_preempt.original_service_time = individual_to_preempt.service_time
         if self.priority_preempt == 'reroute':
             self.reroute(individual_to_preempt)
+            if server.busy:
+                # the re-routed customer came straight back to this node and
+                # the freed server has already been given away on the way
+                return
             self.number_in_service += 1
         else:
             self.write_interruption_record(individual_to_preempt)
